@@ -687,8 +687,16 @@ fn impl_object_for_struct(ast: &DeriveInput, fields: &Fields) -> SynStream {
         }
         impl #impl_generics pdf::object::Object for #id #ty_generics #where_clause {
             fn from_primitive(p: pdf::primitive::Primitive, resolve: &impl pdf::object::Resolve) -> pdf::error::Result<Self> {
+                let id = match p {
+                    pdf::primitive::Primitive::Reference(r) => Some(r),
+                    _ => None
+                };
                 let dict = pdf::primitive::Dictionary::from_primitive(p, resolve)?;
-                <Self as pdf::object::FromDict>::from_dict(dict, resolve)
+                match id {
+                    // a dictionary given by reference: its entries must not lead back to it
+                    Some(r) => pdf::object::Resolve::with_loading(resolve, r, || <Self as pdf::object::FromDict>::from_dict(dict, resolve)),
+                    None => <Self as pdf::object::FromDict>::from_dict(dict, resolve)
+                }
             }
         }
     }
